@@ -43,9 +43,11 @@ def w_strategies(tier: str) -> List[Any]:
         strats.append(dw.Expand(k=1, norm=norm, drop_empty=True))
         strats.append(dw.RemoveFront(norm=norm))
     strats.append(dw.Expand(k=1, norm=True, atom_last=True))
+    strats.append(dw.RemoveFront(swap=True))
+    strats.append(dw.RemoveFront(norm=True, swap=True))
     strats.append(dw.Expand(k=2))
     strats.append(dw.Expand(k=2, norm=True, drop_empty=True))
-    strats += [dw.RemovePatterns(), dw.NormaliseStats(), dw.SwapLetters()]
+    strats += [dw.RemovePatterns(), dw.NormaliseStats(), dw.SwapLetters(), dw.AddImpliedPattern()]
     return strats
 
 
